@@ -416,3 +416,105 @@ func verifLemmaSequencerConsecutive(s *sequencer) (uint16, uint16) {
 //@   ensures ids [C02,C05]: h.Extension && len(h.Extensions) > 0 ==> len(result0) == len(h.Extensions) && fresh(result0) && (forall k :: 0 <= k && k < len(h.Extensions) ==> result0[k] == h.Extensions[k].id)
 //@   loop 0: invariant sofar [C02,C05]: rangeindex <= len(h.Extensions) - 1 && len(ids) == rangeindex + 1 && fresh(ids) && ids != nil && cap(ids) >= len(h.Extensions) && (forall k :: 0 <= k && k <= rangeindex ==> ids[k] == h.Extensions[k].id)
 //@ end
+
+// ===== C01 / C04: encoding (Header.MarshalSize / MarshalTo / Marshal, Packet.*) =====
+//
+// These contracts are proved for headers with at most 2 extension elements
+// (part of wfHeader): the loops over the elements are unrolled completely under
+// that bound; the CSRC loop carries an inductive invariant. Sizes, values,
+// destination buffers are unrestricted. [generated by /verif/tools/gen_marshal_spec.py 2]
+
+//@ pure bool wfOneByte(h) = (0 < len(h.Extensions) ==> 1 <= h.Extensions[0].id && h.Extensions[0].id <= 14 && 1 <= len(h.Extensions[0].payload) && len(h.Extensions[0].payload) <= 16) && (1 < len(h.Extensions) ==> 1 <= h.Extensions[1].id && h.Extensions[1].id <= 14 && 1 <= len(h.Extensions[1].payload) && len(h.Extensions[1].payload) <= 16)
+//@ pure bool wfTwoByte(h) = (0 < len(h.Extensions) ==> 1 <= h.Extensions[0].id && len(h.Extensions[0].payload) <= 255) && (1 < len(h.Extensions) ==> 1 <= h.Extensions[1].id && len(h.Extensions[1].payload) <= 255)
+//@ pure bool wfLegacy(h) = len(h.Extensions) == 1 && h.Extensions[0].id == 0 && len(h.Extensions[0].payload) % 4 == 0 && len(h.Extensions[0].payload) <= 262140
+//@ pure bool wfHeader(h) = h.Version <= 3 && h.PayloadType <= 127 && len(h.CSRC) <= 15 && len(h.Extensions) <= 2 && (!h.Extension ==> len(h.Extensions) == 0) && (h.Extension && h.ExtensionProfile == 48862 ==> wfOneByte(h)) && (h.Extension && h.ExtensionProfile == 4096 ==> wfTwoByte(h)) && (h.Extension && h.ExtensionProfile != 48862 && h.ExtensionProfile != 4096 ==> wfLegacy(h))
+//@ pure extBytes(h) = ite(h.ExtensionProfile == 48862, ite(0 < len(h.Extensions), 1 + len(h.Extensions[0].payload), 0) + ite(1 < len(h.Extensions), 1 + len(h.Extensions[1].payload), 0), ite(h.ExtensionProfile == 4096, ite(0 < len(h.Extensions), 2 + len(h.Extensions[0].payload), 0) + ite(1 < len(h.Extensions), 2 + len(h.Extensions[1].payload), 0), len(h.Extensions[0].payload)))
+//@ pure extWords(h) = (extBytes(h) + 3) / 4
+//@ pure extBlock(h) = 4 + 4 * extWords(h)
+//@ pure hdrSize(h) = 12 + 4 * len(h.CSRC) + ite(h.Extension, extBlock(h), 0)
+
+//@ spec (Header).MarshalSize
+//@   requires len(h.Extensions) <= 2 && len(h.CSRC) <= 15
+//@   requires h.Extension && h.ExtensionProfile != 48862 && h.ExtensionProfile != 4096 ==> len(h.Extensions) >= 1
+//@   loop 0: unroll 3 complete
+//@   loop 1: unroll 3 complete
+//@   ensures size [C01,C04]: result0 == hdrSize(h)
+//@ end
+
+// layout written by MarshalTo (RFC 3550 5.1, RFC 8285 4.2/4.3, as the encoder emits it: no padding between elements, zero padding at the end)
+//@ pure bool hdrFixed(buf, h) = int(buf[0]) == int(h.Version) * 64 + bv(h.Padding) * 32 + bv(h.Extension) * 16 + len(h.CSRC) && int(buf[1]) == bv(h.Marker) * 128 + int(h.PayloadType) && be16(buf, 2) == int(h.SequenceNumber) && be32(buf, 4) == int(h.Timestamp) && be32(buf, 8) == int(h.SSRC)
+//@ pure bool hdrCSRC(buf, h) = forall i :: 0 <= i && i < len(h.CSRC) ==> be32(buf, 12 + 4*i) == int(h.CSRC[i])
+//@ pure bool hdrExtWord(buf, h) = be16(buf, (12 + 4 * len(h.CSRC))) == int(h.ExtensionProfile) && be16(buf, (12 + 4 * len(h.CSRC)) + 2) == extWords(h)
+//@ pure bool hdrOneByte(buf, h) = (0 < len(h.Extensions) ==> int(buf[(12 + 4 * len(h.CSRC)) + 4 + 0]) == int(h.Extensions[0].id) * 16 + len(h.Extensions[0].payload) - 1 && eqseq(buf, (12 + 4 * len(h.CSRC)) + 5 + 0, h.Extensions[0].payload, 0, len(h.Extensions[0].payload))) && (1 < len(h.Extensions) ==> int(buf[(12 + 4 * len(h.CSRC)) + 4 + 0 + 1 + len(h.Extensions[0].payload)]) == int(h.Extensions[1].id) * 16 + len(h.Extensions[1].payload) - 1 && eqseq(buf, (12 + 4 * len(h.CSRC)) + 5 + 0 + 1 + len(h.Extensions[0].payload), h.Extensions[1].payload, 0, len(h.Extensions[1].payload)))
+//@ pure bool hdrTwoByte(buf, h) = (0 < len(h.Extensions) ==> int(buf[(12 + 4 * len(h.CSRC)) + 4 + 0]) == int(h.Extensions[0].id) && int(buf[(12 + 4 * len(h.CSRC)) + 5 + 0]) == len(h.Extensions[0].payload) && eqseq(buf, (12 + 4 * len(h.CSRC)) + 6 + 0, h.Extensions[0].payload, 0, len(h.Extensions[0].payload))) && (1 < len(h.Extensions) ==> int(buf[(12 + 4 * len(h.CSRC)) + 4 + 0 + 2 + len(h.Extensions[0].payload)]) == int(h.Extensions[1].id) && int(buf[(12 + 4 * len(h.CSRC)) + 5 + 0 + 2 + len(h.Extensions[0].payload)]) == len(h.Extensions[1].payload) && eqseq(buf, (12 + 4 * len(h.CSRC)) + 6 + 0 + 2 + len(h.Extensions[0].payload), h.Extensions[1].payload, 0, len(h.Extensions[1].payload)))
+//@ pure bool hdrLegacy(buf, h) = eqseq(buf, (12 + 4 * len(h.CSRC)) + 4, h.Extensions[0].payload, 0, len(h.Extensions[0].payload))
+//@ pure bool hdrPad(buf, h) = forall q :: (12 + 4 * len(h.CSRC)) + 4 + extBytes(h) <= q && q < (12 + 4 * len(h.CSRC)) + extBlock(h) ==> buf[q] == 0
+//@ pure bool extsDisjoint(buf, h) = (0 < len(h.Extensions) ==> !sameobj(h.Extensions[0].payload, buf)) && (1 < len(h.Extensions) ==> !sameobj(h.Extensions[1].payload, buf))
+
+//@ spec (Header).MarshalTo
+//@   requires wfHeader(h) && extsDisjoint(buf, h)
+//@   modifies buf[*]
+//@   loop 0: invariant csrc_pos [C01,C04]: rangeindex <= len(h.CSRC) - 1 && n == 16 + 4 * rangeindex && sameobj(buf, old(buf)) && off(buf) == off(old(buf)) && len(buf) == len(old(buf)) && len(buf) >= hdrSize(h)
+//@   loop 0: invariant csrc_done [C01,C04]: forall i :: 0 <= i && i <= rangeindex ==> be32(buf, 12 + 4*i) == int(h.CSRC[i])
+//@   loop 0: invariant fixed_kept [C01,C04]: hdrFixed(buf, h)
+//@   loop 0: invariant beyond [C04]: forall q :: 16 + 4 * rangeindex <= q && q < len(buf) ==> buf[q] == old(buf[q])
+//@   loop 1: unroll 3 complete
+//@   loop 1: invariant one_pos [C01,C04]: startExtensionsPos == (12 + 4 * len(h.CSRC)) + 4 && extHeaderPos == (12 + 4 * len(h.CSRC)) && (rangeindex == -1 ==> n == startExtensionsPos + 0) && (rangeindex == 0 ==> n == startExtensionsPos + 0 + 1 + len(h.Extensions[0].payload)) && (rangeindex == 1 ==> n == startExtensionsPos + 0 + 1 + len(h.Extensions[0].payload) + 1 + len(h.Extensions[1].payload))
+//@   loop 1: invariant one_bytes [C01,C04]: (rangeindex >= 0 ==> int(buf[(12 + 4 * len(h.CSRC)) + 4 + 0]) == int(h.Extensions[0].id) * 16 + len(h.Extensions[0].payload) - 1 && eqseq(buf, (12 + 4 * len(h.CSRC)) + 5 + 0, h.Extensions[0].payload, 0, len(h.Extensions[0].payload))) && (rangeindex >= 1 ==> int(buf[(12 + 4 * len(h.CSRC)) + 4 + 0 + 1 + len(h.Extensions[0].payload)]) == int(h.Extensions[1].id) * 16 + len(h.Extensions[1].payload) - 1 && eqseq(buf, (12 + 4 * len(h.CSRC)) + 5 + 0 + 1 + len(h.Extensions[0].payload), h.Extensions[1].payload, 0, len(h.Extensions[1].payload)))
+//@   loop 2: unroll 3 complete
+//@   loop 2: invariant two_pos [C01,C04]: startExtensionsPos == (12 + 4 * len(h.CSRC)) + 4 && extHeaderPos == (12 + 4 * len(h.CSRC)) && (rangeindex == -1 ==> n == startExtensionsPos + 0) && (rangeindex == 0 ==> n == startExtensionsPos + 0 + 2 + len(h.Extensions[0].payload)) && (rangeindex == 1 ==> n == startExtensionsPos + 0 + 2 + len(h.Extensions[0].payload) + 2 + len(h.Extensions[1].payload))
+//@   loop 2: invariant two_bytes [C01,C04]: (rangeindex >= 0 ==> int(buf[(12 + 4 * len(h.CSRC)) + 4 + 0]) == int(h.Extensions[0].id) && int(buf[(12 + 4 * len(h.CSRC)) + 5 + 0]) == len(h.Extensions[0].payload) && eqseq(buf, (12 + 4 * len(h.CSRC)) + 6 + 0, h.Extensions[0].payload, 0, len(h.Extensions[0].payload))) && (rangeindex >= 1 ==> int(buf[(12 + 4 * len(h.CSRC)) + 4 + 0 + 2 + len(h.Extensions[0].payload)]) == int(h.Extensions[1].id) && int(buf[(12 + 4 * len(h.CSRC)) + 5 + 0 + 2 + len(h.Extensions[0].payload)]) == len(h.Extensions[1].payload) && eqseq(buf, (12 + 4 * len(h.CSRC)) + 6 + 0 + 2 + len(h.Extensions[0].payload), h.Extensions[1].payload, 0, len(h.Extensions[1].payload)))
+//@   loop 3: unroll 4 complete
+//@   loop 3: invariant pad_pos [C01,C04]: extSize == extBytes(h) && roundedExtSize == 4 * extWords(h) && n == (12 + 4 * len(h.CSRC)) + 4 + extSize + i && i >= 0 && i <= 3
+//@   loop 3: invariant len_field [C01,C04]: be16(buf, (12 + 4 * len(h.CSRC)) + 2) == extWords(h)
+//@   loop 3: invariant zeros [C01,C04]: forall q :: (12 + 4 * len(h.CSRC)) + 4 + extBytes(h) <= q && q < n ==> buf[q] == 0
+//@   ensures short [C04]: len(buf) < hdrSize(h) ==> n == 0 && errIs(err, io.ErrShortBuffer)
+//@   ensures ok [C01,C04]: len(buf) >= hdrSize(h) ==> err == nil && n == hdrSize(h)
+//@   ensures fixed [C01,C04]: len(buf) >= hdrSize(h) ==> hdrFixed(buf, h)
+//@   ensures csrc [C01,C04]: len(buf) >= hdrSize(h) ==> hdrCSRC(buf, h)
+//@   ensures ext_word [C01,C04]: len(buf) >= hdrSize(h) && h.Extension ==> hdrExtWord(buf, h)
+//@   ensures one_byte [C01,C04]: len(buf) >= hdrSize(h) && h.Extension && h.ExtensionProfile == 48862 ==> hdrOneByte(buf, h)
+//@   ensures two_byte [C01,C04]: len(buf) >= hdrSize(h) && h.Extension && h.ExtensionProfile == 4096 ==> hdrTwoByte(buf, h)
+//@   ensures legacy [C01,C04]: len(buf) >= hdrSize(h) && h.Extension && h.ExtensionProfile != 48862 && h.ExtensionProfile != 4096 ==> hdrLegacy(buf, h)
+//@   ensures ext_padding [C01,C04]: len(buf) >= hdrSize(h) && h.Extension ==> hdrPad(buf, h)
+//@   ensures beyond_untouched [C04]: len(buf) >= hdrSize(h) ==> forall q :: hdrSize(h) <= q && q < len(buf) ==> buf[q] == old(buf[q])
+//@ end
+// ===== end of generated encoder contracts =====
+
+//@ pure bool hdrImage(buf, h) = hdrFixed(buf, h) && hdrCSRC(buf, h) && (h.Extension ==> hdrExtWord(buf, h) && hdrPad(buf, h)) && (h.Extension && h.ExtensionProfile == 48862 ==> hdrOneByte(buf, h)) && (h.Extension && h.ExtensionProfile == 4096 ==> hdrTwoByte(buf, h)) && (h.Extension && h.ExtensionProfile != 48862 && h.ExtensionProfile != 4096 ==> hdrLegacy(buf, h))
+
+//@ spec (Header).Marshal
+//@   requires wfHeader(h)
+//@   ensures ok [C01]: err == nil && buf != nil && fresh(buf) && len(buf) == hdrSize(h)
+//@   ensures image [C01]: hdrImage(buf, h)
+//@ end
+
+//@ pure bool wfPacket(p) = wfHeader(p.Header) && (p.Header.Padding <==> p.PaddingSize >= 1)
+//@ pure pktSize(p) = hdrSize(p.Header) + len(p.Payload) + int(p.PaddingSize)
+
+//@ spec (Packet).MarshalSize
+//@   requires len(p.Header.Extensions) <= 2 && len(p.Header.CSRC) <= 15
+//@   requires p.Header.Extension && p.Header.ExtensionProfile != 48862 && p.Header.ExtensionProfile != 4096 ==> len(p.Header.Extensions) >= 1
+//@   ensures size [C01,C04]: result0 == pktSize(p)
+//@ end
+
+// Packet.MarshalTo: header image, then the payload, then PaddingSize-1 zero
+// octets and the padding count (RFC 3550 5.1) - every octet below n is
+// determined by the packet alone, whatever buf held before.
+//@ spec (*Packet).MarshalTo
+//@   requires wfHeader(p.Header) && extsDisjoint(buf, p.Header) && !sameobj(p.Payload, buf)
+//@   modifies buf[*]
+//@   loop 0: invariant pos [C01,C04]: 0 <= i && i <= int(p.PaddingSize) - 1 && n == hdrSize(p.Header) && m == len(p.Payload) && n + m + int(p.PaddingSize) <= len(buf) && sameobj(buf, old(buf)) && off(buf) == off(old(buf)) && len(buf) == len(old(buf)) && p.Header.Padding && p.PaddingSize >= 1
+//@   loop 0: invariant zeros [C04]: forall q :: n + m <= q && q < n + m + i ==> buf[q] == 0
+//@   loop 0: invariant kept [C01,C04]: hdrFixed(buf, p.Header) && hdrCSRC(buf, p.Header) && (p.Header.Extension ==> hdrExtWord(buf, p.Header)) && eqseq(buf, hdrSize(p.Header), p.Payload, 0, len(p.Payload))
+//@   loop 0: invariant beyond [C04]: forall q :: n + m + i <= q && q < len(buf) ==> buf[q] == old(buf[q])
+//@   loop 0: decreases int(p.PaddingSize) - i
+//@   ensures bad_padding [C01,C04]: p.Header.Padding && p.PaddingSize == 0 ==> n == 0 && errIs(err, errInvalidRTPPadding)
+//@   ensures short [C04]: !(p.Header.Padding && p.PaddingSize == 0) && len(buf) < pktSize(p) ==> n == 0 && errIs(err, io.ErrShortBuffer)
+//@   ensures ok [C01,C04]: !(p.Header.Padding && p.PaddingSize == 0) && len(buf) >= pktSize(p) ==> err == nil && n == pktSize(p)
+//@   ensures header [C01,C04]: err == nil ==> hdrFixed(buf, p.Header) && hdrCSRC(buf, p.Header) && (p.Header.Extension ==> hdrExtWord(buf, p.Header))
+//@   ensures payload [C01,C04]: err == nil ==> eqseq(buf, hdrSize(p.Header), p.Payload, 0, len(p.Payload))
+//@   ensures pad_count [C01,C04]: err == nil && p.Header.Padding ==> int(buf[n-1]) == int(p.PaddingSize)
+//@   ensures pad_zero [C04]: err == nil && p.Header.Padding ==> forall q :: hdrSize(p.Header) + len(p.Payload) <= q && q < n - 1 ==> buf[q] == 0
+//@   ensures beyond_untouched [C04]: err == nil ==> forall q :: n <= q && q < len(buf) ==> buf[q] == old(buf[q])
+//@ end
